@@ -599,6 +599,52 @@ def rapaport_m2 (n : Int) : Option (RawDef) := do
   let name : String := ("rapaport_m2-" ++ pyStr n)
   pure (RawDef.mk generators (some (pyRange (0 : Int) n (1 : Int))) (some generator_names) (some name))
 
+/-- translated from `graphs_lib.py:all_cycles` -/
+def all_cycles (n : Int) : Option (RawDef) := do
+  pyAssert (decide (n ≥ (2 : Int)))
+  let generators : List (List Int) := []
+  let generator_names : List String := []
+  let st ← List.foldlM (fun (st : (List (List Int)) × (List String)) (k : Int) => do
+      let generators := st.1
+      let generator_names := st.2
+      let st ← List.foldlM (fun (st : (List (List Int)) × (List String)) (subset : List Int) => do
+          let generators := st.1
+          let generator_names := st.2
+          let t_1 ← pyMin subset
+          let min_elem : Int := t_1
+          let rest : List Int := (List.map (fun x => x) (List.filter (fun x => ((x != min_elem))) subset))
+          let st ← List.foldlM (fun (st : (List (List Int)) × (List String)) (perm : List Int) => do
+              let generators := st.1
+              let generator_names := st.2
+              let cycle : List Int := (pyRange (0 : Int) n (1 : Int))
+              let current : Int := min_elem
+              let st ← List.foldlM (fun (st : (List Int) × Int) (target : Int) => do
+                  let cycle := st.1
+                  let current := st.2
+                  let cycle ← pySet cycle current target
+                  let current : Int := target
+                  pure (cycle, current)
+                  ) (cycle, current) perm
+              let cycle := st.1
+              let current := st.2
+              let cycle ← pySet cycle current min_elem
+              let generators := generators ++ [cycle]
+              let generator_names := generator_names ++ [("cycle_" ++ pyStr (pyLen generators))]
+              pure (generators, generator_names)
+              ) (generators, generator_names) (pyPermutations rest)
+          let generators := st.1
+          let generator_names := st.2
+          pure (generators, generator_names)
+          ) (generators, generator_names) (pyCombinations (pyRange (0 : Int) n (1 : Int)) k)
+      let generators := st.1
+      let generator_names := st.2
+      pure (generators, generator_names)
+      ) (generators, generator_names) (pyRange (2 : Int) (n + (1 : Int)) (1 : Int))
+  let generators := st.1
+  let generator_names := st.2
+  let name : String := ("all_cycles-" ++ pyStr n)
+  pure (RawDef.mk generators (some (pyRange (0 : Int) n (1 : Int))) (some generator_names) (some name))
+
 /-- default value of `lsl_cycles(add_inverses=…)` in the source -/
 def lsl_cycles_default_add_inverses : Bool := true
 /-- translated from `graphs_lib.py:lsl_cycles` -/
@@ -852,8 +898,6 @@ def prefix_cycles (n : Int) : Option (RawDef) := do
 -- NOT TRANSLATED `prepare_graph`: not translated: star arguments
 
 -- NOT TRANSLATED `involutive_derangements`: not translated: local function generate_matchings uses outer variables ['first', 'generate_matchings', 'i', 'matching', 'partner', 'remaining', 'result']
-
--- NOT TRANSLATED `all_cycles`: not translated: call of min
 
 -- NOT TRANSLATED `conjugacy_classes`: not translated: annotation dict[tuple[int], Union[int, None]]
 
